@@ -517,7 +517,7 @@ func cmdCheck(args []string) int {
 					if rr.confirms(v) {
 						confirmed[v] = true
 					} else {
-						fmt.Printf("REPLAY-MISMATCH harness=%s label=%s: solver model does not reproduce natively (native: %s %s) — encoder or stub problem, not reported as violation\n", v.Harness, v.Label, rr.Status, rr.Detail)
+						fmt.Printf("REPLAY-MISMATCH harness=%s label=%s: solver model does not reproduce natively (native: %s %s) — encoder or stub problem, not reported as violation; symbolic panic=%q inputs=%v\n", v.Harness, v.Label, rr.Status, rr.Detail, v.Panic, v.Inputs)
 						bump(2)
 					}
 				}
